@@ -32,6 +32,7 @@ class SimSock(object):
         self.out = []
         self.blocking = True
         self.accepted_at = sim.clock
+        self.request_count = 0
 
     def complete_request_buffered(self):
         return b"\r\n\r\n" in self.buf
@@ -116,6 +117,8 @@ class SimListener(object):
 
 
 class SimFuture(object):
+    sim = None
+
     def __init__(self, fn, conn):
         self.fn = fn
         self.conn_arg = conn
@@ -145,6 +148,9 @@ class SimFuture(object):
     def cancel(self):
         if self.state == "pending":
             self.state = "cancelled"
+            sim = self.sim
+            if sim is not None:
+                sim.on_cancel(self)
             for cb in self.callbacks:
                 cb(self)
             return True
@@ -159,6 +165,7 @@ class SimPool(object):
 
     def submit(self, fn, conn):
         f = SimFuture(fn, conn)
+        f.sim = self.sim
         f.submitted_iter = self.sim.iteration
         self.queue.append(f)
         self.sim.on_submit(f)
@@ -192,6 +199,10 @@ class SimFutures(object):
 
     def wait(self, fs, timeout=None, return_when=None):
         self.sim.yield_point("wait", timeout)
+        if not self.sim.worker.alive and return_when is None:
+            # the final wait after the loop: pool threads keep running for up to graceful_timeout
+            while self.sim.run_one_handler():
+                pass
         fs = list(fs)
         return Wait(set(f for f in fs if f.done()), set(f for f in fs if not f.done()))
 
@@ -272,6 +283,12 @@ class Sim(object):
         self.ready_stats = {}
         self.flagged = set()
         self.settled = 0
+        self.cancelled = []
+        self.patient_clients = False
+        self.dispatched = set()
+        self.cancelled = []
+        self.patient_clients = False
+        self.dispatched = set()
         self.had_futures = False
 
     # ---- construction
@@ -352,6 +369,12 @@ class Sim(object):
                 self.V("keepalive-not-before", "keepalive-connection-closed-early", {"cid": sock.cid, "deadline": dl, "now": self.clock})
             self.keepalive_events += 1
 
+    def on_cancel(self, f):
+        sock = f.conn_arg.sock
+        self.cancelled.append(sock.cid)
+        if (sock.complete_request_buffered() or self.parser_has_request(sock.cid)) and not sock.client_closed:
+            self.V("no-close-while-handling", "queued-request-cancelled-at-shutdown", {"cid": sock.cid})
+
     def parser_has_request(self, cid):
         conn = self.tconn.get(cid)
         if conn is None or conn.parser is None:
@@ -361,6 +384,7 @@ class Sim(object):
     def on_submit(self, f):
         sock = f.conn_arg.sock
         self.tconn[sock.cid] = f.conn_arg
+        self.dispatched.add(sock.cid)
         self.trace.append(("dispatch", sock.cid, self.clock, self.iteration))
         self.ready_since.pop(sock.cid, None)
         self.ready_stats.pop(sock.cid, None)
@@ -410,6 +434,7 @@ class Sim(object):
             if live:
                 c = live[ev[1] % len(live)]
                 c.buf += {"send_ka": REQ_KA, "send_close": REQ_CLOSE, "send_partial": REQ_KA[:10], "send_two": REQ_KA + REQ_KA}[kind]
+                c.request_count += {"send_partial": 0, "send_two": 2}.get(kind, 1)
         elif kind == "finish_partial":
             for c in open_:
                 if c.buf and b"\r\n\r\n" not in c.buf and not c.client_closed:
@@ -440,7 +465,7 @@ class Sim(object):
             self.drained += 1
             while self.run_one_handler():
                 pass
-            if self.drained >= 3:
+            if self.drained >= 3 and not self.patient_clients:
                 for c in self.open_conns():
                     if c.buf and b"\r\n\r\n" not in c.buf:
                         c.buf = b""
